@@ -70,6 +70,7 @@ def cfg_text(c, emit=True, invs=INVS, prop=True):
 EXEMPT = [[], ["ip", "mac"], ["hostname", "keyword", "password"]]
 EXEMPT4 = EXEMPT + [["hostname", "ip", "mac", "password"]]      # all but one (the machine-id spec minus ipv6)
 MACHINE_ID = ["hostname", "ip", "ipv6", "mac", "password"]      # the shipped machine_id declaration: everything but keyword
+ALL_SIX = ["hostname", "ip", "ipv6", "keyword", "mac", "password"]     # insights.cleaner.DEFAULT_OBFUSCATIONS
 CONFIGS = {
     # C08 ---------------------------------------------------------------------------------
     # every kind x every pair of delimiter classes x every switch vector, one token
@@ -152,6 +153,12 @@ CONFIGS = {
     # nothing to apply: no patterns, no keywords, every enabled obfuscator exempted (the machine-id spec)
     "runsnone": dict(kinds=["text", "ip", "fqdn"], tok=1, lines=2, blank=True, kws=[[]], pats=[[]], nored=[False, True],
                      noobf=[["hostname", "ip", "mac", "password"]], runs=2),
+    # the spec's DECLARATION exempts it from every obfuscator (all six: cleaned by redaction only, or - with no_redact -
+    # not cleaned at all) or from all but keyword (the machine-id declaration), no_redact on / off, patterns configured
+    # or not, no keywords: whether a step is CONFIGURED must not decide whether the spec counts as cleaned.  Small, replayed
+    # completely (ALWAYS), also through a generated registry point that carries the declaration (specprovider).
+    "runsexempt": dict(kinds=["text", "pat"], tok=1, lines=2, blank=True, kws=[[]], pats=[[], [1]], nored=[False, True],
+                       noobf=[ALL_SIX, MACHINE_ID], runs=2),
     # filterable spec: allow list {key: max_match 1|2}, budgets used up by the content
     "runsallow": dict(kinds=["text", "akey", "ip", "pat"], tok=1, lines=3, blank=True, pats=[[1]], allow=[1, 2], runs=2),
     # allow list of two keys with budgets 1-2, lines with one or both keys
@@ -176,8 +183,8 @@ PLAN = {
     "C09": dict(quick=dict(emit=["hist2", "hist2x", "histw", "hist3v6", "hist2v6", "hist2v6lb", "hist2kw", "hist2kwsub", "hist2own"], model=[], cap=8000, nconc=2, paths=["content"], long=80),
                 thorough=dict(emit=["hist2", "hist2x", "histw", "hist3v6", "hist2v6", "hist2v6lb", "hist2kw", "hist2kwsub", "hist2own", "hist3ip", "hist3host", "hist3mac"], model=[], cap=50000, long=600,
                               nconc=3, paths=["content", "content", "provider", "file"])),
-    "C10": dict(quick=dict(emit=["runs3", "runs2sp", "runsnone", "runsallow", "runsallow2", "runshosts", "runsvt"], model=["ordruns"], cap=800, seeds=16),
-                thorough=dict(emit=["runs3", "runs2sp", "runsnone", "runsallow", "runsallow2", "runsallow3", "runshosts", "runsvt", "runs2x2", "runs4"], model=["ordruns"], cap=5000, seeds=64)),
+    "C10": dict(quick=dict(emit=["runs3", "runs2sp", "runsnone", "runsexempt", "runsallow", "runsallow2", "runshosts", "runsvt"], model=["ordruns"], cap=800, seeds=16),
+                thorough=dict(emit=["runs3", "runs2sp", "runsnone", "runsexempt", "runsallow", "runsallow2", "runsallow3", "runshosts", "runsvt", "runs2x2", "runs4"], model=["ordruns"], cap=5000, seeds=64)),
 }
 
 ASSUMPTIONS = [
@@ -259,7 +266,8 @@ def run_models(prop, tier, plan):
     return models, raw
 
 
-ALWAYS = ("tok1",)      # replayed completely: every kind x every pair of delimiter classes is hit in every run
+ALWAYS = ("tok1", "runsexempt")     # replayed completely: every kind x every pair of delimiter classes (tok1) / every
+                                    # declaration x configuration x content of <= 2 lines (runsexempt) is hit in every run
 
 
 def sample_cases(raw, cap, rng):
@@ -431,6 +439,9 @@ def run(prop, tier):
                 c["paths"] = ["content", "filterprovider"]
             if c["cf"]["fam"] == "vt":
                 c["paths"] = ["content", "file"]
+            if any(len(sp["sp"]["noobf"]) >= 5 for sp in c["content"]):
+                # a declaration that exempts (nearly) everything: also through a registry point that carries it
+                c["paths"] = ["content", "provider", "specprovider"]
         K = plan["seeds"]
         payload = dict(mode="runs", cases=cases, seed=lib.seed(), tmp=tmp)
         payloads = []
@@ -550,6 +561,8 @@ def replay(prop, path):
     else:
         K = 16 if rp.get("tier", "quick") == "quick" else 64
         case["paths"] = ["content", "filterprovider" if any(sp["sp"].get("allow") for sp in case["content"]) else "provider"]
+        if any(len(sp["sp"]["noobf"]) >= 5 for sp in case["content"]):
+            case["paths"] = ["content", "provider", "specprovider"]
         outs = lib.run_driver_parallel("drive_cleaner.py", [dict(mode="runs", cases=[case], seed=seed, repeat=k < 4,
                                                                  tmp=os.path.join(tmp, "hs%d" % k)) for k in range(K)],
                                        hashseeds=list(range(K)))
